@@ -549,7 +549,7 @@ pub fn cfgs(tier: &str) -> Vec<(LinkCfg, Bounds)> {
     add("2 machines, 1 net, mtu 100, latency 600+800 us", vec![vec![0], vec![0]], 1, 100, Lat::Var(600, 800), 0, vec![10], 1);
     add("2 machines, 1 net, mtu 100, latency 1 us", vec![vec![0], vec![0]], 1, 100, Lat::Const(1), 0, vec![10], 1);
     // rates given in bits per second: a multiple of 8, one that is not, one below 8
-    let bit_rates: Vec<u64> = if q { vec![8000, 12, 7] } else { vec![8000, 8001, 9, 12, 15, 7, 1] };
+    let bit_rates: Vec<u64> = if q { vec![8000, 12, 7] } else { vec![8000, 8001, 9, 12, 15, 7] };
     for r in bit_rates {
         add(&format!("2 machines, 1 net, mtu 100, {r} bit/s"), vec![vec![0], vec![0]], 1, 100, Lat::None, 0, vec![3], 1);
     }
